@@ -40,6 +40,8 @@ def handleTmpl (j : Json) : Except String Verdict := do
 
 def errKind (s : String) : String :=
   if s.startsWith "panic" then "panic"
+  else if s.startsWith "fatal" then "fatal"
+  else if s.startsWith "timeout" then "timeout"
   else if (s.splitOn "SyntaxError").length > 1 then "js-syntax-error"
   else if (s.splitOn "ReferenceError").length > 1 then "js-reference-error"
   else if (s.splitOn "TypeError").length > 1 then "js-type-error"
